@@ -20,7 +20,7 @@ ASSUMPTIONS = ['operands are kept in core-domain formats (objects with n_word>52
                'steps whose documented result word is < 1 are rejected by the library (ValueError) and are skipped and counted by the generator']
 EXHAUSTIVE = False
 REQUIRED_CLASSES = {'op:arith': 500, 'op:shift': 200, 'op:bitwise': 200, 'op:reduce': 200, 'op:resize': 200, 'op:index': 100, 'op:construct': 300,
-                    'sat:float-huge': 500, 'sat:int-huge': 500, 'objects-checked': 5000}
+                    'sat:float-huge': 500, 'sat:int-huge': 500, 'sat:container-huge': 300, 'objects-checked': 5000}
 
 
 def check_object(x, where):
@@ -360,7 +360,10 @@ def check_saturate(ctx, case):
     route = case['route']
     lo, hi = M.rng(s, w)
     upper, lower = M.value_of(hi, f), M.value_of(lo, f)
-    sig = 'saturate/%s/%s' % (case['kind'], route)
+    cont = case.get('cont', 'scalar')
+    sig = 'saturate/%s/%s/%s' % (case['kind'], cont, route)
+    if cont != 'scalar':
+        return check_saturate_container(ctx, case, v, exact, sig)
 
     def do():
         kw = dict(rounding=case['rounding'], overflow='saturate')
@@ -397,6 +400,52 @@ def check_saturate(ctx, case):
         want = M.quant(exact, s, w, f, case['rounding'], 'saturate')[0]
         if k != want and M.is_double(M.scaled(exact, f)):
             ctx.fail(sig + '/in-range-value', case, {'code': k, 'expected': want})
+
+
+def check_saturate_container(ctx, case, v, exact, sig):
+    """The out-of-range input travels in a list / tuple / array next to ordinary in-range values."""
+    fmt = tuple(case['fmt'])
+    s, w, f = fmt
+    F = C.Fxp()
+    lo, hi = M.rng(s, w)
+    others = [int(k) for k in case.get('others', [0, 1])]
+    elems = [others[0], v] + others[1:]
+    exacts = [Fraction(others[0]), exact] + [Fraction(o) for o in others[1:]]
+    cont = case['cont']
+    if case['kind'] == 'float':
+        elems = [float(e) for e in elems]
+    obj = list(elems) if cont == 'list' else tuple(elems) if cont == 'tuple' else \
+        (np.array(elems, dtype=object) if (cont == 'object-array' or case['kind'] == 'int' and any(abs(int(e)) >= 1 << 63 for e in elems)) else np.array(elems))
+    route = case['route']
+
+    def do():
+        kw = dict(rounding=case['rounding'], overflow='saturate')
+        if route in ('ctor', 'setitem'):
+            return F(obj, s, w, f, **kw)
+        x = F(None, s, w, f, **kw)
+        return x(obj) if route == 'call' else x.set_val(obj)
+    ok, x = ctx.guard(case, do, sig_prefix=sig + '/')
+    if not ok:
+        return
+    try:
+        check_object(x, sig)
+        ks = C.flat(C.codes(x))
+    except Mismatch as m:
+        ctx.fail(m.sig, case, m.detail)
+        return
+    upper, lower = M.value_of(hi, f), M.value_of(lo, f)
+    for i, (e, k) in enumerate(zip(exacts, ks)):
+        if e > upper and k != hi:
+            ctx.fail(sig + '/above-upper-not-hi', case, {'index': i, 'code': k, 'hi': hi, 'dtype': x.dtype})
+            return
+        if e < lower and k != lo:
+            ctx.fail(sig + '/below-lower-not-lo', case, {'index': i, 'code': k, 'lo': lo, 'dtype': x.dtype})
+            return
+        if lower <= e <= upper and M.is_double(M.scaled(e, f)) and abs(M.scaled(e, f)) < 2 ** 62:
+            want = M.quant(e, s, w, f, case['rounding'], 'saturate')[0]
+            if k != want:
+                ctx.fail(sig + '/in-range-neighbour-changed', case, {'index': i, 'code': k, 'expected': want})
+                return
 
 
 CHECKS = {'program': check_program, 'saturate': check_saturate}
@@ -470,7 +519,8 @@ def st_saturate(draw):
         vv = draw(st.one_of(st.integers(-(1 << 1000), 1 << 1000), st.integers(-(1 << 66), 1 << 66),
                             st.sampled_from([1 << 63, (1 << 63) - 1, (1 << 63) + 1, 1 << 64, (1 << 64) - 1, -(1 << 63), -(1 << 63) - 1, -(1 << 64), 1 << 62])))
     return {'check': 'saturate', 'fmt': list(fmt), 'kind': kind, 'v': vv, 'route': draw(st.sampled_from(['ctor', 'call', 'set_val', 'setitem'])),
-            'rounding': draw(st.sampled_from(C.ROUNDINGS))}
+            'rounding': draw(st.sampled_from(C.ROUNDINGS)), 'cont': draw(st.sampled_from(['scalar', 'scalar', 'list', 'tuple', 'array', 'object-array'])),
+            'others': [draw(st.integers(-2, 2)) if fmt[0] else draw(st.integers(0, 2)) for _ in range(draw(st.integers(1, 3)))]}
 
 
 def body_saturate(ctx, case):
@@ -484,6 +534,8 @@ def body_saturate(ctx, case):
             ctx.cls('sat:int-huge')
     if big:
         ctx.nontrivial(('sat', repr(sorted((k, repr(v)) for k, v in case.items()))))
+        if case.get('cont', 'scalar') != 'scalar':
+            ctx.cls('sat:container-huge')
     ctx.sample(case, big)
     check_saturate(ctx, case)
 
@@ -497,5 +549,5 @@ def tasks(tier, scale=1.0):
     n = int(n * scale)
     out = [('machine-%d' % i, 'task_machine', {'n': n, 'steps': steps}) for i in range(14)]
     nh = int((2500 if tier == 'quick' else 40000) * scale)
-    out += [('hyp-saturate-%d' % i, 'task_hyp_saturate', {'n': nh}) for i in range(2)]
+    out += [('hyp-saturate-%d' % i, 'task_hyp_saturate', {'n': nh}) for i in range(4)]
     return out
